@@ -240,7 +240,7 @@ TakeReply(c) ==
 
 SeeClose(c) ==
     /\ Calm
-    /\ pc[c] = "wait" /\ closed[cur[c]]
+    /\ pc[c] = "wait" /\ closed[cur[c]] /\ "no_close_wake" \notin Dev
     /\ RandomSelect \/ slot[c] = None
     /\ IF "ok_on_close" \in Dev THEN Finish(c, "ok")
                               ELSE pc' = [pc EXCEPT ![c] = "decide"] /\ res' = [res EXCEPT ![c] = "other"]
